@@ -5,3 +5,6 @@ package redisemu
 // verifPoint is a schedule/crash point used by the external verification
 // harness. In a normal build it is an empty function the compiler inlines away.
 func verifPoint(name string, id int64) {}
+
+// verifBind tells the verification harness which client a wake signal belongs to.
+func verifBind(ws *wakeSignal, id int64) {}
